@@ -26,6 +26,7 @@ type histResult struct {
 	Altered    []string         `json:"altered,omitempty"`
 	Scribbles  int              `json:"scribbles"`
 	Reinspects int              `json:"reinspects"`
+	Stopped    int              `json:"stopped_after_op,omitempty"`
 }
 
 // Solo is the history-free oracle: the outcome of one call executed alone in
